@@ -158,6 +158,8 @@ def poly(t, atoms=None):
         raise NotPoly(t)
     if t[0] == "cast" and t[1] in ("FloatToFloat", "IntToFloat"):
         return poly(t[2], atoms)
+    if t[0] == "cast" and t[1] == "IntToInt" and len(t) > 4 and widening(t[4], t[3]):
+        return poly(t[2], atoms)
     return p_atom(t)
 
 
@@ -190,3 +192,16 @@ def p_show(p):
         mon = "*".join(("%s^%d" % (pse.show(a), e)) if e > 1 else pse.show(a) for a, e in m)
         out.append(("%s*%s" % (c, mon)) if mon else str(c))
     return " + ".join(out)
+
+
+_BITS = {"u8": 8, "u16": 16, "u32": 32, "u64": 64, "u128": 128, "usize": 64, "i8": 8, "i16": 16, "i32": 32, "i64": 64,
+         "i128": 128, "isize": 64}
+
+
+def widening(frm, to):
+    """value-preserving integer cast"""
+    if frm not in _BITS or to not in _BITS:
+        return False
+    if frm[0] == to[0]:
+        return _BITS[to] >= _BITS[frm]
+    return frm[0] == "u" and _BITS[to] > _BITS[frm]
